@@ -507,7 +507,7 @@ class DimArrayOnDisk(GetSetDelAttrMixin, NetCDFVariable, AbstractDimArray):
                     self.axes[ax.name][idx] = axis
                 else:
                     # dimension variable already written, simple check
-                    ondisk = self.axes[ax.name][idx if not (np.isscalar(idx) or np.ndim(idx)==0)  else [idx]].values
+                    ondisk = self.axes[ax.name][idx if isinstance(idx, slice) or np.ndim(idx) > 0 else [idx]].values
                     inmemory = axis.values
                     # inmemory, _ = maybe_encode_values(axis.values)
                     if not np.all(ondisk == inmemory):
